@@ -1145,6 +1145,31 @@ pub fn thread_scenarios(tier: Tier) -> Vec<Scenario> {
     if thorough {
         add("registry-vs-registry", "two registry calls and two cache calls at once", p, vec![vec![RegRemove(0)], vec![RegRemove(0), RegRemove(1)], vec![CacheClear(1), Take(0)]]);
         add("four-threads", "remove, clear, registry remove and take on four threads", 2, vec![vec![CacheRemove(0, 1)], vec![CacheClear(0)], vec![RegRemove(1)], vec![Take(0)]]);
+        // every assignment of a script alphabet to three threads (modulo renaming)
+        let scripts: Vec<(&str, Vec<TOp>)> = vec![
+            ("R00", vec![CacheRemove(0, 0)]),
+            ("R01", vec![CacheRemove(0, 1), Size(0)]),
+            ("R10", vec![CacheRemove(1, 0)]),
+            ("C0", vec![CacheClear(0)]),
+            ("RR0", vec![RegRemove(0)]),
+            ("RC", vec![RegClear]),
+            ("T0", vec![Take(0)]),
+            ("T1", vec![Take(1)]),
+            ("S", vec![Size(0), Size(1)]),
+        ];
+        let n = scripts.len();
+        for a in 0..n {
+            for b in a..n {
+                for c in b..n {
+                    // a client is taken once
+                    let names = [scripts[a].0, scripts[b].0, scripts[c].0];
+                    if names.iter().filter(|x| **x == "T0").count() > 1 || names.iter().filter(|x| **x == "T1").count() > 1 {
+                        continue;
+                    }
+                    add(&format!("gen/{}", names.join("+")), "generated: every assignment of the script alphabet {cache remove (3 keys), cache clear, registry remove, registry clear, take (2 clients), size} to three threads", 2, vec![scripts[a].1.clone(), scripts[b].1.clone(), scripts[c].1.clone()]);
+                }
+            }
+        }
     }
     v
 }
